@@ -26,7 +26,7 @@ PROPERTY = 'C07'
 BUDGET = {'quick': 900, 'thorough': 5400}
 INF = float('inf')
 
-QUICK_SPACES = ('rn2x2', 'pw_rn2_2_c', 'rn3', 'ud3', 'rn3w2', 'rn3wa', 'pw_rn2_2', 'pw_ud2_2', 'nest_rn1_2x2',
+QUICK_SPACES = ('rn2x2', 'pw_rn2_2_c', 'pw_rn2_1_c', 'rn3', 'ud3', 'rn3w2', 'rn3wa', 'pw_rn2_2', 'pw_ud2_2', 'nest_rn1_2x2',
                 'pr_rn2_rn2_w', 'rn2')
 DER_BASES = ['L1Norm', 'L2NormSquared', 'L2Norm', 'KullbackLeibler', 'IndicatorBox', 'Huber',
              'IndicatorLpUnitBall', 'KullbackLeiblerCrossEntropy']
@@ -57,7 +57,7 @@ def configs(tier):
     for name in RAWREF:
         kinds, opts, _, sigk = c10.RAW[name]
         sps = ((['rn3', 'rn3wa'] if not thorough else FR.TENS) if 'T' in kinds else []) + \
-              ((['pw_ud2_2'] if not thorough else FR.POW) if 'P' in kinds else [])
+              ((['pw_ud2_2', 'pw_rn2_1_c', 'pw_rn2_2_c'] if not thorough else FR.POW + ['pw_rn2_1_c', 'pw_rn2_2_c']) if 'P' in kinds else [])
         if name == 'proximal_huber':
             sps = [x for x in sps if x != 'rn3wa' and not x.startswith('pw_')]   # see Huber spec
         for sp in sps:
@@ -89,7 +89,10 @@ def configs(tier):
     for f1, f2 in itertools.product(['L1Norm', 'L2NormSquared', 'L2Norm', 'IndicatorBox'],
                                     repeat=2):
         for s in sig[:2]:
-            for sk in ('scalar', 'list'):
+            for sk in ('scalar', 'list', 'tuple', 'ndarray'):
+                if sk in ('tuple', 'ndarray') and (f1, f2) not in (
+                        ('L1Norm', 'L2NormSquared'), ('IndicatorBox', 'L1Norm'), ('L2Norm', 'L2Norm')):
+                    continue        # the other spellings of a per-component step: three pairs
                 cfgs.append({'kind': 'sepsum', 'f1': f1, 'f2': f2, 'sigma': s, 'sk': sk})
                 if (f1, f2) in (('L1Norm', 'L2NormSquared'), ('IndicatorBox', 'L1Norm')):
                     # a scaled separable sum: the step (scalar or list) passes through
@@ -167,7 +170,7 @@ def _space_kind(name):
 def _weight_kind(name):
     if name in ('rn3', 'rn2', 'pw_rn2_2', 'nest_rn1_2x2', 'nest_rn2_2x2', 'rn3f32', 'rn2x2'):
         return 'unweighted'
-    if name in ('rn3w2', 'rn2w2', 'pw_rn2w2_2', 'ud3', 'ud2', 'pw_ud2_2', 'pw_rn2_2_c'):
+    if name in ('rn3w2', 'rn2w2', 'pw_rn2w2_2', 'ud3', 'ud2', 'pw_ud2_2', 'pw_rn2_2_c', 'pw_rn2_1_c'):
         return 'const-weighted'
     return 'nonuniformly-weighted'
 
@@ -423,9 +426,13 @@ def run(cfg):
         if cfg['sk'] == 'elem':
             sig_arr = np.asarray((_SIG * 4)[:n])
             sigma = info.elem(sig_arr)
-        elif cfg['sk'] == 'list':
+        elif cfg['sk'] in ('list', 'tuple', 'ndarray'):
             sigma = [cfg['sigma'], 2 * cfg['sigma']]
             sig_arr = np.array([sigma[0]] * 2 + [sigma[1]] * 2)
+            if cfg['sk'] == 'tuple':
+                sigma = tuple(sigma)
+            elif cfg['sk'] == 'ndarray':
+                sigma = np.array(sigma)
         else:
             sigma = cfg['sigma']
             sig_arr = np.full(n, float(sigma))
